@@ -581,3 +581,23 @@ fn probe_c02_large_message_decrypted_then_refused_by_storage() {
     let r3 = bob.process_message(&ev2);
     println!("F21 next message: {:?}", r3.as_ref().map(|x| format!("{:?}", x).chars().take(40).collect::<String>()).map_err(|e| e.to_string()));
 }
+
+/// F22 candidate (C12 marker-last): process_application_message writes the processed record before the group's last-message pointer.
+/// Crash emulation: the state after the processed record and before save_group is "message + record stored, group record as before";
+/// it is produced here by putting the previous group record back. Re-processing the event then short-circuits on the record.
+#[test]
+fn probe_c12_pointer_write_after_processed_record_is_lost() {
+    let (alice, bob, alice_keys, _bob_keys, gid) = two_party();
+    let before = bob.get_group(&gid).unwrap().unwrap();
+    let ev = alice.create_message(&gid, create_test_rumor(&alice_keys, "hello")).unwrap();
+    let r = bob.process_message(&ev).unwrap();
+    let full = bob.get_group(&gid).unwrap().unwrap();
+    println!("F22 uninterrupted run: last_message_id {:?} -> {:?}", before.last_message_id.map(|i| i.to_hex()[..8].to_string()), full.last_message_id.map(|i| i.to_hex()[..8].to_string()));
+    // emulate the process dying between save_processed_message and save_group
+    bob.storage().save_group(before.clone()).unwrap();
+    let r2 = bob.process_message(&ev);
+    println!("F22 re-processing after the emulated crash: {:?}", r2.as_ref().map(|x| format!("{:?}", x).chars().take(40).collect::<String>()).map_err(|e| e.to_string()));
+    let after = bob.get_group(&gid).unwrap().unwrap();
+    println!("F22 after retry: last_message_id {:?}, stored messages {}", after.last_message_id.map(|i| i.to_hex()[..8].to_string()), bob.get_messages(&gid, None).unwrap().len());
+    let _ = r;
+}
